@@ -40,7 +40,7 @@ def functions():
 
 def bounds(tier):
     q = tier == "quick"
-    return {"script_events": "6 from a fresh start, 5 after a prefix" if q else "9 / 8", "fault_budget": 2 if q else 3, "generations": "<= 3 rebalances", "prefix_states": ["fresh", "stable", "stable + heartbeat in flight", "stable + auto-commit and heartbeat in flight", "rejoining with the old heartbeat unanswered"], "partitions": 2,
+    return {"script_events": "6 from a fresh start, 5 after a prefix" if q else "7 / 6", "fault_budget": 2, "generations": "<= 3 rebalances", "prefix_states": ["fresh", "stable", "stable + heartbeat in flight", "stable + auto-commit and heartbeat in flight", "rejoining with the old heartbeat unanswered"], "partitions": 2,
             "outside": "more than 2 members / 2 partitions; real KafkaClient underneath (C07)"}
 
 
@@ -51,12 +51,12 @@ def limits(tier):
 def jobs(tier):
     q = tier == "quick"
     out = [
-        {"K": 6 if q else 9, "faults": 2 if q else 3, "leader": True, "stop": True},
-        {"K": 6 if q else 9, "faults": 2 if q else 3, "leader": False, "stop": True},
+        {"K": 6 if q else 7, "faults": 2, "leader": True, "stop": True},
+        {"K": 6 if q else 7, "faults": 2, "leader": False, "stop": True},
     ]
     # deep states reached by concrete prefixes, then a symbolic suffix
     for prefix, ac in (("stable", False), ("stable-hb", False), ("stable-commit-hb", True), ("rejoin-with-hb-pending", True)):
-        out.append({"K": 5 if q else 8, "faults": 2, "leader": False, "stop": True, "prefix": prefix, "autocommit": ac})
+        out.append({"K": 5 if q else 6, "faults": 2, "leader": False, "stop": True, "prefix": prefix, "autocommit": ac})
     return out
 
 
